@@ -573,8 +573,13 @@ fn huge_bind_group(text: &str) -> bool {
         let mut rest = text;
         while let Some(i) = rest.find(key) {
             rest = &rest[i + key.len()..];
-            let digits: String = rest.trim_start_matches(|c: char| c == ' ' || c == '=' || c == '(').chars().take_while(|c| c.is_ascii_digit()).collect();
-            if digits.len() >= 6 {
+            let lit: String = rest.trim_start_matches(|c: char| c == ' ' || c == '=' || c == '(').chars().take_while(|c| c.is_ascii_alphanumeric()).collect();
+            let lower = lit.to_ascii_lowercase();
+            let huge = match lower.strip_prefix("0x") {
+                Some(hex) => hex.chars().take_while(|c| c.is_ascii_hexdigit()).count() >= 5,
+                None => lower.chars().take_while(|c| c.is_ascii_digit()).count() >= 6,
+            };
+            if huge {
                 return true;
             }
         }
